@@ -283,7 +283,11 @@ func parseGrpcEnd(hdr http.Header, place string) *endRec {
 		end.Code = -1
 		end.Extra = "missing grpc-status"
 	case len(st) > 1:
+		// ill-formed; a client that takes the first value reads this code
 		end.Code = -1
+		if v, err := strconv.ParseUint(st[0], 10, 32); err == nil {
+			end.Code = int(v)
+		}
 		end.Extra = "multiple grpc-status"
 	default:
 		v, err := strconv.ParseUint(st[0], 10, 32)
